@@ -188,15 +188,15 @@ def run(cx):
             cx.ob('RANGE', 'Series1::resampled_x:spacing', lb is not None and lb >= 1, 'n - 1 >= (x_max - x_min)/spacing is provable for the count handed to resampled_n', where=b.file, found=f'lower bound {lb}')
     b = cx.fn('func1::series1::Series1::resampled_n')
     if b:
-        # contract used above: n points over n-1 equal steps, clamped to x_max
-        okn = False
-        for cl in cx.facts.closures_of(b.name):
-            rr = cx.retval(cl)
-            if match('(call f64::min (add (call *x_min _) (mul (cast f64 (param 2)) (field cap:step_size (param 1)))) (call *x_max _))', rr) is not None:
-                okn = True
-        steps = [simplify(b.dag().rvalue(s['rv'], bi, si)) for bi in b.live for si, s in enumerate(b.blocks[bi]['stmts']) if not s['pl']['p'] and s['rv']['k'] == 'bin']
-        oks = any(match('(div (sub (call *x_max (param self)) (call *x_min (param self))) (sub (cast f64 (param n)) 1.0))', v) is not None for v in steps)
-        cx.ob('EXPR', 'Series1::resampled_n:contract', okn and oks, 'resampled_n lays n abscissae x_min + i*(x_max-x_min)/(n-1) (clamped to x_max): n-1 equal steps', where=b.file)
+        # contract used above: n points over n-1 equal steps, clamped to x_max (one comprehension over 0..n, whatever is hoisted out of the closure)
+        XMIN, XMAX = '(call *x_min (param self))', '(call *x_max (param self))'
+        STEP = f'(div (sub {XMAX} {XMIN}) (sub (cast f64 (param n)) 1.0))'
+        tf = b.calls('*DiscreteDomain::try_from')
+        if len(tf) == 1:
+            cx.expect_comp('EXPR', 'Series1::resampled_n:contract', b, cx.arg(tf[0], 0), '(range 0 (param n))', f'(call f64::min (add {XMIN} (mul (cast f64 (itervar (range 0 (param n)))) {STEP})) {XMAX})',
+                           'resampled_n lays n abscissae x_min + i*(x_max-x_min)/(n-1) (clamped to x_max): n-1 equal steps')
+        else:
+            cx.ob('EXPR', 'Series1::resampled_n:contract', False, 'the abscissae are validated once', where=b.file, found=f'{len(tf)} try_from calls')
 
     # ---------------------------------------------------------------- Rdp
     b = cx.fn('common::points::Rdp::simplify')
